@@ -154,7 +154,11 @@ def _cat2(i, a, b, node):
         raise Unsupported("concatenate of arrays with different rank/dtype", node)
     na, nb = to_z3(a.shape[0], Int), to_z3(b.shape[0], Int)
     if a.ndim == 1:
-        return define1(i, na + nb, a.elem_sort, lambda k: z3.If(k < na, z3.Select(a.data, k), z3.Select(b.data, k - na)), "cat", a.dtype)
+        r = define1(i, na + nb, a.elem_sort, lambda k: z3.If(k < na, z3.Select(a.data, k), z3.Select(b.data, k - na)), "cat", a.dtype)
+        k = z3.Int("k!catb")
+        i.ctx.assume(z3.ForAll([k], z3.Implies(z3.And(k >= 0, k < na), z3.Select(r.data, k) == z3.Select(a.data, k)), patterns=[z3.Select(a.data, k)]))
+        i.ctx.assume(z3.ForAll([k], z3.Implies(z3.And(k >= 0, k < nb), z3.Select(r.data, k + na) == z3.Select(b.data, k)), patterns=[z3.Select(b.data, k)]))
+        return r
     out = new_arr(i, (na + nb, a.shape[1]), a.elem_sort, "cat", a.dtype)
     i.safe("shape", to_z3(a.shape[1], Int) == to_z3(b.shape[1], Int), node)
     k = z3.Int("k!cat2")
@@ -182,7 +186,8 @@ def _lift2(i, a, b, f, elem, node, name="pw"):
     if ref.ndim == 1:
         ga = (lambda k: z3.Select(A.data, k)) if A is not None else (lambda k: a)
         gb = (lambda k: z3.Select(B.data, k)) if B is not None else (lambda k: b)
-        return define1(i, ref.shape[0], elem, lambda k: f(ga(k), gb(k)), name)
+        alts = [g for g, X in ((ga, A), (gb, B)) if X is not None]
+        return define1(i, ref.shape[0], elem, lambda k: f(ga(k), gb(k)), name, alts=alts)
     ga = (lambda r, c: A.at(r, c)) if A is not None else (lambda r, c: a)
     gb = (lambda r, c: B.at(r, c)) if B is not None else (lambda r, c: b)
     return define2(i, ref.shape[0], ref.shape[1], elem, lambda r, c: f(ga(r, c), gb(r, c)), name)
@@ -393,3 +398,18 @@ def _isin(i, args, kw, node, fr):
 
 FUNCS["numpy.in1d"] = _isin
 TRUSTED["numpy.in1d"] = "same as isin for 1-D"
+
+
+@model("numpy.isnan", "isnan pointwise (opaque float payloads: predicate isnan; reals: never NaN - NaN not modelled over the reals)")
+def _isnan(i, args, kw, node, fr):
+    a = args[0]
+    from .arrays import isnan as _isn
+    if isinstance(a, Arr):
+        check_live(a, node)
+        f = (lambda x: _isn(x)) if a.elem_sort == Val else (lambda x: z3.BoolVal(False))
+        if a.ndim == 1:
+            return define1(i, a.shape[0], Bool, lambda k: f(z3.Select(a.data, k)), "isnan_arr", alts=[lambda k: z3.Select(a.data, k)])
+        return define2(i, a.shape[0], a.shape[1], Bool, lambda r, c: f(a.at(r, c)), "isnan_arr")
+    if is_z3(a) and a.sort() == Val:
+        return _isn(a)
+    return False
